@@ -98,7 +98,12 @@ class MotionCommander:
         if height is None:
             height = self.default_height
 
-        self.up(height, velocity)
+        try:
+            self.up(height, velocity)
+        except Exception:
+            # The setpoint thread is already streaming: do not leave it running if the ascent fails
+            self.land()
+            raise
 
     def land(self, velocity=VELOCITY):
         """
@@ -111,16 +116,18 @@ class MotionCommander:
         :return:
         """
         if self._is_flying:
-            self.down(self._thread.get_height(), velocity)
+            try:
+                self.down(self._thread.get_height(), velocity)
+            finally:
+                # Always stop the setpoint thread and the motors, also when the descent fails
+                self._thread.stop()
+                self._thread = None
 
-            self._thread.stop()
-            self._thread = None
-
-            self._cf.commander.send_stop_setpoint()
-            # Stop using low level setpoints and hand responsibility over to the high level commander to
-            # avoid time out when no setpoints are received any more
-            self._cf.commander.send_notify_setpoint_stop()
-            self._is_flying = False
+                self._cf.commander.send_stop_setpoint()
+                # Stop using low level setpoints and hand responsibility over to the high level commander to
+                # avoid time out when no setpoints are received any more
+                self._cf.commander.send_notify_setpoint_stop()
+                self._is_flying = False
 
     def __enter__(self):
         self.take_off()
